@@ -285,6 +285,13 @@ def run_single(case):
         return res
     _check_answer(res, 'kbest', case, k, ans, dists)
     _check_container(res, 'kbest', ms, ans, n + 1)
+    if k is not None and len(ans) <= n + 1:
+        # the positional accessor of the same answer
+        got, exc = libcall(lambda: [tuple(ss.get_ith_value(i)) for i in range(len(ans))])
+        if exc:
+            res.fail('ith:' + exc, 'get_ith_value raised after kbest_matches(%r)' % (k,))
+        elif [(float(d), int(i)) for d, i in got] != [(a[0], a[1]) for a in ans]:
+            res.fail('ith:differs', 'get_ith_value(0..%d) = %r, the matches are %r' % (len(ans) - 1, got, ans))
     skipped = (spy.lb_calls - spy.dist_calls) if case['use_lb'] and case['ndim'] == 1 else 0
     res.count('lb_skipped', max(0, skipped))
     res.count('tightened_calls', spy.tightened)
